@@ -77,3 +77,25 @@ def reach_variant(F, fn, start, enum, variant, preds=None, scrutinee_ok=None, re
                 seen.add(n)
                 work.append(n)
     return seen
+
+
+def reach_multi(F, fn, start, fixed, preds_by_enum=None, scrutinee_ok=None, removed=()):
+    """like reach_variant for several scrutinees at once: fixed = {enum: variant}; a switch on one of the enums
+    (accepted by scrutinee_ok(enum, place, block)) follows only that variant's edge"""
+    s = cfg.succs(fn)
+    removed = set(removed)
+    seen = set()
+    work = [start] if isinstance(start, int) else list(start)
+    work = [b for b in work if b not in removed]
+    seen.update(work)
+    while work:
+        b = work.pop()
+        t = fn.term(b)
+        nxt = s[b]
+        if t["k"] == "switch" and t.get("enum") in fixed and (scrutinee_ok is None or scrutinee_ok(t["enum"], t["src"], b)):
+            nxt = [cfg.switch_edge(t, variant=fixed[t["enum"]])]
+        for n in nxt:
+            if n not in seen and n not in removed:
+                seen.add(n)
+                work.append(n)
+    return seen
